@@ -83,10 +83,6 @@ Fixpoint esc_braces (s : string) : string :=
                   else String c (esc_braces r)
   end.
 
-(* repr of a non-finite float / complex literal such as 1e400 *)
-Definition is_inf (r : string) : bool := String.eqb r "inf" || String.eqb r "infj".
-Definition fix_inf (r : string) : string := if String.eqb r "inf" then "1e309" else if String.eqb r "infj" then "1e309j" else r.
-
 Definition optstr {A} (f : A -> string) (o : option A) : string := match o with Some a => f a | None => "" end.
 
 (* ---------- the reference printer ---------- *)
@@ -97,7 +93,7 @@ Fixpoint rprint (direct : bool) (e : pyexpr) {struct e} : string :=
   let gens_s := fun (gens : list pyexpr) => sjoin " " (map (rprint false) gens) in
   match e with
   | PName id => id
-  | PNum _ r => fix_inf r
+  | PNum isint r => num_text isint r
   | PConst r => r
   | PStr r _ _ => r
   | PParsed p => rprint direct p
@@ -152,17 +148,13 @@ Definition ref_at (req : nat) (c : pyexpr) : string := paren_if (Nat.ltb (prec c
 
 (* ---------- known-gap classifier ---------- *)
 Definition G_GROUP := 1.      (* an operand needs grouping parentheses that Griffe never writes *)
-Definition G_DICT_UNPACK := 2.
 Definition G_FSTRING := 3.
 Definition G_LAMBDA := 4.
-Definition G_DICTCOMP := 5.
 Definition G_GENEXP := 6.
 Definition G_EMPTY_SLICE_TUPLE := 7.
 Definition G_YIELD := 8.
 Definition G_INT_ATTR := 9.
 Definition G_AWAIT := 10.
-Definition G_SUBSCRIPT_LEAK := 11.
-Definition G_INF := 12.
 
 Fixpoint fam (e : pyexpr) : nat :=
   match e with
@@ -193,12 +185,11 @@ Definition lambda_gap (po pk : list pyexpr) (vp : option string) (ko : list pyex
 
 (* the flags mirror the ones [build] threads: insub / injoin / infmt; direct as in [rprint] *)
 Fixpoint gaps (direct isub ijoin ifmt : bool) (e : pyexpr) {struct e} : list nat :=
-  let g1 := gaps false isub ijoin ifmt in
+  let g1 := gaps false false ijoin ifmt in
   let ga := fun (req : nat) (c : pyexpr) => need req c ++ g1 c in
   let go := fun (req : nat) (o : option pyexpr) => match o with Some c => ga req c | None => [] end in
   match e with
-  | PName _ | PConst _ => []
-  | PNum _ r => if is_inf r then [G_INF] else []
+  | PName _ | PConst _ | PNum _ _ => []
   | PStr _ _ _ => if ijoin && negb ifmt then [G_FSTRING] else []
   | PParsed p => gaps direct isub false false p
   | PAttribute v _ => ga P_ATOM v ++ (if is_int_lit v then [G_INT_ATTR] else [])
@@ -212,12 +203,11 @@ Fixpoint gaps (direct isub ijoin ifmt : bool) (e : pyexpr) {struct e} : list nat
       need P_ATOM v ++ gaps false false ijoin ifmt v ++ need P_TEST sl ++ gaps true true ijoin ifmt sl
   | PSlice lo up st => go P_TEST lo ++ go P_TEST up ++ go P_TEST st
   | PTuple es =>
-      (if isub && negb direct then [G_SUBSCRIPT_LEAK] else [])
-      ++ (if direct && is_nil es then [G_EMPTY_SLICE_TUPLE] else [])
+      (if direct && is_nil es then [G_EMPTY_SLICE_TUPLE] else [])
       ++ flat_map (fun c => need P_TEST c ++ gaps false false ijoin ifmt c) es
   | PList es | PSet es => flat_map (ga P_TEST) es
   | PDict items => flat_map g1 items
-  | PDictItem None v => G_DICT_UNPACK :: ga P_BOR v
+  | PDictItem None v => ga P_BOR v
   | PDictItem (Some k) v => ga P_TEST k ++ ga P_TEST v
   | PIfExp b t o => ga P_OR b ++ ga P_OR t ++ ga P_TEST o
   | PLambda po pk vp ko _ body =>
@@ -227,18 +217,18 @@ Fixpoint gaps (direct isub ijoin ifmt : bool) (e : pyexpr) {struct e} : list nat
   | PNamedExpr t v => g1 t ++ ga P_TEST v
   | PStarred v => ga P_BOR v
   | PListComp e gens | PSetComp e gens | PGeneratorExp e gens => ga P_TEST e ++ flat_map g1 gens
-  | PDictComp k v gens => G_DICTCOMP :: ga P_TEST k ++ ga P_TEST v ++ flat_map g1 gens
+  | PDictComp k v gens => ga P_TEST k ++ ga P_TEST v ++ flat_map g1 gens
   | PComprehension t it ifs _ => ga P_BOR t ++ ga P_OR it ++ flat_map (ga P_OR) ifs
   | PJoinedStr vs =>
       flat_map (fun c => match c with
                          | PStr _ raw _ => if ifmt || has_brace raw || has_unsafe raw then [G_FSTRING] else []
                          | PParsed _ => [G_FSTRING]   (* literal text of a nested f-string taken for code *)
-                         | _ => gaps false isub true ifmt c
+                         | _ => gaps false false true ifmt c
                          end) vs
   | PFormattedValue v conv spec =>
       (if negb (conv =? -1)%Z || (match spec with Some _ => true | None => false end) then [G_FSTRING] else [])
       ++ (if starts_brace (ref_at P_OR v) then [G_FSTRING] else [])
-      ++ need P_OR v ++ gaps false isub ijoin true v
+      ++ need P_OR v ++ gaps false false ijoin true v
   | PYield v => go P_TEST v
   | PYieldFrom v => ga P_TEST v
   | PAwait v => G_AWAIT :: ga P_ATOM v
